@@ -18,6 +18,7 @@
 #include <memory>
 #include <sstream>
 #include <functional>
+#include <cstring>
 
 using namespace SimTK;
 
@@ -714,6 +715,298 @@ void richCase(vh::Rng& r) {
     doCheck(S, s, key);
 }
 
+
+// ---------------------------------------------------------------------------------------------------------
+// History-independence differential for the MATTER subsystem over the full mobilizer palette.
+// One State is taken through a history of {q / u changes through the various public routes, realizations to
+// Position / Velocity / Dynamics / Acceleration, explicit invalidateAll(stage), reads}; at the end everything
+// readable at the final stage S (body and mobilizer transforms, hinge matrix columns, system Jacobian columns,
+// M e_k, MInv e_0, N e_k, composite / articulated inertias, velocities, qdot, Coriolis / gyroscopic terms, inverse
+// dynamics residual, forces, udot, qdotdot, accelerations) is compared BIT FOR BIT with a fresh State that was given
+// the same values and realized once to S.  Keys  matter.history.<Type>.<order>.bits_equal .
+
+// f(x,y) = a sin x + b x y + c y : a coupled, nonlinear coordinate function for MobilizedBody::FunctionBased
+struct Coupled2 : public Function {
+    Coupled2(Real a, Real b, Real c) : a(a), b(b), c(c) {}
+    Real calcValue(const Vector& x) const override { return a * std::sin(x[0]) + b * x[0] * x[1] + c * x[1]; }
+    Real calcDerivative(const Array_<int>& d, const Vector& x) const override {
+        int nx = 0, ny = 0; for (int i : d) (i == 0 ? nx : ny)++;
+        if (ny == 0) { switch (nx % 4) { case 1: return a * std::cos(x[0]) + (nx == 1 ? b * x[1] : 0);
+                                         case 2: return -a * std::sin(x[0]); case 3: return -a * std::cos(x[0]); default: return a * std::sin(x[0]); } }
+        if (ny == 1 && nx == 0) return b * x[0] + c;
+        if (ny == 1 && nx == 1) return b;
+        return 0;
+    }
+    int getArgumentSize() const override { return 2; }
+    int getMaxDerivativeOrder() const override { return 10; }
+    Function* clone() const override { return new Coupled2(*this); }
+    Real a, b, c;
+};
+struct Sin1 : public Function {           // f(x) = a sin(w x)
+    Sin1(Real a, Real w) : a(a), w(w) {}
+    Real calcValue(const Vector& x) const override { return a * std::sin(w * x[0]); }
+    Real calcDerivative(const Array_<int>& d, const Vector& x) const override {
+        const Real k = a * std::pow(w, (Real)d.size());
+        switch (d.size() % 4) { case 1: return k * std::cos(w * x[0]); case 2: return -k * std::sin(w * x[0]);
+                                case 3: return -k * std::cos(w * x[0]); default: return k * std::sin(w * x[0]); }
+    }
+    int getArgumentSize() const override { return 1; }
+    int getMaxDerivativeOrder() const override { return 10; }
+    Function* clone() const override { return new Sin1(*this); }
+    Real a, w;
+};
+
+// user-written mobilizer with a q-dependent hinge matrix: polar coordinates in the x-y plane of F
+// (q0 = angle about z, q1 = radius); H = [ (0,0,1) , 0 ; q1 (-s,c,0) , (c,s,0) ]
+struct PolarMobilizer : public MobilizedBody::Custom::Implementation {
+    explicit PolarMobilizer(SimbodyMatterSubsystem& m) : Implementation(m, 2, 2, 0) {}
+    Implementation* clone() const override { return new PolarMobilizer(*this); }
+    Transform calcMobilizerTransformFromQ(const State&, int, const Real* q) const override {
+        return Transform(Rotation(q[0], ZAxis), Vec3(q[1] * std::cos(q[0]), q[1] * std::sin(q[0]), 0)); }
+    SpatialVec multiplyByHMatrix(const State& s, int, const Real* u) const override {
+        const Vector q = getQ(s); const Real c = std::cos(q[0]), sn = std::sin(q[0]);
+        return SpatialVec(Vec3(0, 0, u[0]), u[0] * q[1] * Vec3(-sn, c, 0) + u[1] * Vec3(c, sn, 0)); }
+    void multiplyByHTranspose(const State& s, const SpatialVec& F, int, Real* f) const override {
+        const Vector q = getQ(s); const Real c = std::cos(q[0]), sn = std::sin(q[0]);
+        f[0] = F[0][2] + q[1] * dot(Vec3(-sn, c, 0), F[1]); f[1] = dot(Vec3(c, sn, 0), F[1]); }
+    SpatialVec multiplyByHDotMatrix(const State& s, int, const Real* u) const override {
+        const Vector q = getQ(s), v = getU(s); const Real c = std::cos(q[0]), sn = std::sin(q[0]);
+        const Vec3 h0d = v[1] * Vec3(-sn, c, 0) + q[1] * v[0] * Vec3(-c, -sn, 0), h1d = v[0] * Vec3(-sn, c, 0);
+        return SpatialVec(Vec3(0), u[0] * h0d + u[1] * h1d); }
+    void multiplyByHDotTranspose(const State& s, const SpatialVec& F, int, Real* f) const override {
+        const Vector q = getQ(s), v = getU(s); const Real c = std::cos(q[0]), sn = std::sin(q[0]);
+        const Vec3 h0d = v[1] * Vec3(-sn, c, 0) + q[1] * v[0] * Vec3(-c, -sn, 0), h1d = v[0] * Vec3(-sn, c, 0);
+        f[0] = dot(h0d, F[1]); f[1] = dot(h1d, F[1]); }
+    void setQToFitTransform(const State&, const Transform& X, int, Real* q) const override {
+        q[0] = std::atan2(X.p()[1], X.p()[0]); q[1] = std::sqrt(X.p()[0] * X.p()[0] + X.p()[1] * X.p()[1]); }
+    void setUToFitVelocity(const State&, const SpatialVec& V, int, Real* u) const override { u[0] = V[0][2]; u[1] = V[1][0]; }
+};
+
+enum MType { M_Pin, M_Slider, M_Cylinder, M_BendStretch, M_Universal, M_Planar, M_Gimbal, M_Bushing, M_Ball, M_Free, M_Translation,
+             M_Screw, M_SphericalCoords, M_Ellipsoid, M_LineOrientation, M_FreeLine, M_FunctionBased, M_FunctionBasedCoupled, M_Custom, M_NTYPES };
+const char* const MTYPE_NAMES[M_NTYPES] = { "Pin", "Slider", "Cylinder", "BendStretch", "Universal", "Planar", "Gimbal", "Bushing", "Ball", "Free",
+    "Translation", "Screw", "SphericalCoords", "Ellipsoid", "LineOrientation", "FreeLine", "FunctionBased", "FunctionBasedCoupled", "Custom" };
+
+MobilizedBody addMobilizer(Sys& S, vh::Rng& r, MobilizedBody parent, int t, bool rev) {
+    const Vec3 com = rvec(r, .1, .5);
+    Body::Rigid body(MassProperties(r.range(.5, 3), com, UnitInertia(r.range(.5, 2), r.range(.5, 2), r.range(.5, 2)).shiftFromCentroid(-com)));
+    const Transform F(Rotation(r.range(-1, 1), UnitVec3(rvec(r, .3, 1))), rvec(r, .2, 1));
+    const Transform M(Rotation(r.range(-1, 1), UnitVec3(rvec(r, .3, 1))), rvec(r, .1, .5));
+    const MobilizedBody::Direction d = rev ? MobilizedBody::Reverse : MobilizedBody::Forward;
+    switch (t) {
+    case M_Pin: return MobilizedBody::Pin(parent, F, body, M, d);
+    case M_Slider: return MobilizedBody::Slider(parent, F, body, M, d);
+    case M_Cylinder: return MobilizedBody::Cylinder(parent, F, body, M, d);
+    case M_BendStretch: return MobilizedBody::BendStretch(parent, F, body, M, d);
+    case M_Universal: return MobilizedBody::Universal(parent, F, body, M, d);
+    case M_Planar: return MobilizedBody::Planar(parent, F, body, M, d);
+    case M_Gimbal: return MobilizedBody::Gimbal(parent, F, body, M, d);
+    case M_Bushing: return MobilizedBody::Bushing(parent, F, body, M, d);
+    case M_Ball: return MobilizedBody::Ball(parent, F, body, M, d);
+    case M_Free: return MobilizedBody::Free(parent, F, body, M, d);
+    case M_Translation: return MobilizedBody::Translation(parent, F, body, M, d);
+    case M_Screw: return MobilizedBody::Screw(parent, F, body, M, r.range(.2, 1), d);
+    case M_SphericalCoords: return MobilizedBody::SphericalCoords(parent, F, body, M, r.range(-.5, .5), r.coin(), r.range(-.5, .5), r.coin(),
+                                                                 r.coin() ? CoordinateAxis(XAxis) : CoordinateAxis(ZAxis), r.coin(), d);
+    case M_Ellipsoid: return MobilizedBody::Ellipsoid(parent, F, body, M, Vec3(r.range(.3, 1), r.range(.3, 1), r.range(.3, 1)), d);
+    case M_LineOrientation: return MobilizedBody::LineOrientation(parent, F, body, M, d);
+    case M_FreeLine: return MobilizedBody::FreeLine(parent, F, body, M, d);
+    case M_FunctionBased: case M_FunctionBasedCoupled: {
+        // 3 mobilities; spatial functions (body-fixed x,y,z rotations, then x,y,z translations)
+        std::vector<const Function*> fn; std::vector<std::vector<int> > ix;
+        Vector lin(2); lin[0] = 1; lin[1] = 0;
+        fn.push_back(new Function::Linear(lin)); ix.push_back({0});
+        fn.push_back(new Function::Linear(lin)); ix.push_back({1});
+        if (t == M_FunctionBasedCoupled) { fn.push_back(new Coupled2(r.range(.3, 1), r.range(.3, 1), r.range(-.5, .5))); ix.push_back({0, 1}); }
+        else { fn.push_back(new Function::Linear(lin)); ix.push_back({2}); }
+        fn.push_back(new Sin1(r.range(.3, 1), r.range(.5, 2))); ix.push_back({t == M_FunctionBasedCoupled ? 2 : 0});
+        if (t == M_FunctionBasedCoupled) { fn.push_back(new Coupled2(r.range(.3, 1), r.range(.3, 1), r.range(-.5, .5))); ix.push_back({2, 0}); }
+        else { fn.push_back(new Function::Constant(0, 0)); ix.push_back({}); }
+        fn.push_back(new Function::Constant(0, 0)); ix.push_back({});
+        return MobilizedBody::FunctionBased(parent, F, body, M, 3, fn, ix, d); }
+    default: return MobilizedBody::Custom(parent, new PolarMobilizer(S.matter), F, body, M, d);
+    }
+}
+
+void pushSV(std::vector<double>& v, const SpatialVec& x) { for (int i = 0; i < 2; ++i) for (int j = 0; j < 3; ++j) v.push_back(x[i][j]); }
+
+// everything readable at `stage` (5..8); the composite / articulated inertias must have been realized by the caller
+std::vector<double> matterDigest(const Sys& S, const State& s, int stage) {
+    std::vector<double> d; const SimbodyMatterSubsystem& m = S.matter;
+    const int nb = m.getNumBodies(), nu = s.getNU();
+    if (stage >= 5) {
+        for (MobilizedBodyIndex b(1); b < nb; ++b) {
+            const MobilizedBody& mb = m.getMobilizedBody(b);
+            pushMat(d, mb.getBodyTransform(s).toMat34()); pushMat(d, mb.getMobilizerTransform(s).toMat34());
+            for (int k = 0; k < mb.getNumU(s); ++k) { pushSV(d, mb.getHCol(s, MobilizerUIndex(k))); pushSV(d, mb.getH_FMCol(s, MobilizerUIndex(k))); }
+            const SpatialMat C = m.getCompositeBodyInertia(s, b).toSpatialMat(), P = m.getArticulatedBodyInertia(s, b).toSpatialMat();
+            for (int i = 0; i < 2; ++i) for (int j = 0; j < 2; ++j) { pushMat(d, C(i, j)); pushMat(d, P(i, j)); }
+        }
+        Vector e(nu, 0.0), Me, qd, Mi; Vector_<SpatialVec> Je;
+        for (int k = 0; k < nu; ++k) {
+            e = 0; e[k] = 1;
+            m.multiplyBySystemJacobian(s, e, Je); for (int b = 0; b < Je.size(); ++b) pushSV(d, Je[b]);
+            m.multiplyByM(s, e, Me); push(d, Me);
+            m.multiplyByN(s, false, e, qd); push(d, qd);
+            if (k == 0 || k == nu - 1) { m.multiplyByMInv(s, e, Mi); push(d, Mi); }
+        }
+        push(d, s.getQErr());
+    }
+    if (stage >= 6) {
+        for (MobilizedBodyIndex b(1); b < nb; ++b) {
+            const MobilizedBody& mb = m.getMobilizedBody(b);
+            pushSV(d, mb.getBodyVelocity(s)); pushSV(d, mb.getMobilizerVelocity(s));
+            pushSV(d, m.getTotalCoriolisAcceleration(s, b)); pushSV(d, m.getMobilizerCoriolisAcceleration(s, b)); pushSV(d, m.getGyroscopicForce(s, b));
+        }
+        push(d, s.getQDot()); push(d, s.getUErr());
+        Vector resid; m.calcResidualForceIgnoringConstraints(s, Vector(), Vector_<SpatialVec>(), Vector(), resid); push(d, resid);
+    }
+    if (stage >= 7) {
+        push(d, S.sys.getMobilityForces(s, Stage::Dynamics));
+        const Vector_<SpatialVec>& bf = S.sys.getRigidBodyForces(s, Stage::Dynamics); for (int b = 0; b < bf.size(); ++b) pushSV(d, bf[b]);
+    }
+    if (stage >= 8) {
+        push(d, s.getUDot()); push(d, s.getQDotDot()); push(d, s.getUDotErr());
+        for (MobilizedBodyIndex b(1); b < nb; ++b) { pushSV(d, m.getMobilizedBody(b).getBodyAcceleration(s)); pushSV(d, m.getTotalCentrifugalForces(s, b)); }
+    }
+    return d;
+}
+
+// 0 if bit-for-bit equal; otherwise the relative difference (at least the smallest positive double)
+double bitsDiff(const std::vector<double>& a, const std::vector<double>& b) {
+    if (a.size() != b.size()) return INFINITY;
+    if (a.empty() || std::memcmp(a.data(), b.data(), a.size() * sizeof(double)) == 0) return 0;
+    return std::max(relDiffVec(a, b), 4.9e-324);
+}
+
+struct MatterSys { Sys S; bool euler = false; std::string type; };
+
+void buildMatterForces(Sys& S, vh::Rng& r) {
+    addForce(S, r, K_UniformGravity); addForce(S, r, K_GlobalDamper); addForce(S, r, K_MobConst);
+}
+
+State matterFresh(const MatterSys& M, const Vector& q, const Vector& u, Real t, int stage) {
+    State f = M.S.sys.getDefaultState();
+    if (M.euler) { M.S.matter.setUseEulerAngles(f, true); M.S.sys.realizeModel(f); }
+    f.setTime(t); f.setQ(q); f.setU(u);
+    M.S.sys.realize(f, Stage(stage));
+    M.S.matter.realizeCompositeBodyInertias(f); M.S.matter.realizeArticulatedBodyInertias(f);
+    return f;
+}
+
+struct MatterRun {          // one State and the bookkeeping of its history
+    const MatterSys& M; State s; long tok = 100; vh::Rng& r;
+    Vector qPrev, uPrev;      // values before the last change (to tell whether the change mattered)
+    MatterRun(const MatterSys& M, vh::Rng& r) : M(M), s(M.S.sys.getDefaultState()), r(r) {
+        emitModel(M.S, s);
+        if (M.euler) { M.S.matter.setUseEulerAngles(s, true); out(M.S, s, "setOpt %ld", ++tok); M.S.sys.realizeModel(s); out(M.S, s, "realize 2"); }
+        Vector q(s.getNQ()), u(s.getNU());
+        for (int i = 0; i < q.size(); ++i) q[i] = r.signedMag(.2, 1);
+        for (int i = 0; i < u.size(); ++i) u[i] = r.signedMag(.2, 1);
+        s.setQ(q); out(M.S, s, "setQ %ld", ++tok);
+        s.setU(u); out(M.S, s, "setU %ld", ++tok);
+        qPrev = q; uPrev = u;
+    }
+    void changeQ() {          // through one of the public routes; every coordinate of the subject changes
+        qPrev = s.getQ();
+        const int route = r.below(4);
+        if (route == 0) { Vector q(s.getNQ()); for (int i = 0; i < q.size(); ++i) q[i] = r.signedMag(.2, 1); s.setQ(q); }
+        else if (route == 1) { for (int i = 0; i < s.getNQ(); ++i) s.updQ()[i] = r.signedMag(.2, 1); }
+        else if (route == 2) { for (const MobilizedBody& b : M.S.bodies) for (int i = 0; i < b.getNumQ(s); ++i) b.setOneQ(s, i, r.signedMag(.2, 1)); }
+        else { for (const MobilizedBody& b : M.S.bodies) { Vector v(b.getNumQ(s)); for (int i = 0; i < v.size(); ++i) v[i] = r.signedMag(.2, 1); b.setQFromVector(s, v); } }
+        out(M.S, s, "setQ %ld", ++tok);
+    }
+    void changeU() {
+        uPrev = s.getU();
+        const int route = r.below(4);
+        if (route == 0) { Vector u(s.getNU()); for (int i = 0; i < u.size(); ++i) u[i] = r.signedMag(.2, 1); s.setU(u); }
+        else if (route == 1) { for (int i = 0; i < s.getNU(); ++i) s.updU()[i] = r.signedMag(.2, 1); }
+        else if (route == 2) { for (const MobilizedBody& b : M.S.bodies) for (int i = 0; i < b.getNumU(s); ++i) b.setOneU(s, i, r.signedMag(.2, 1)); }
+        else { for (const MobilizedBody& b : M.S.bodies) { Vector v(b.getNumU(s)); for (int i = 0; i < v.size(); ++i) v[i] = r.signedMag(.2, 1); b.setUFromVector(s, v); } }
+        out(M.S, s, "setU %ld", ++tok);
+    }
+    void realize(int g) { M.S.sys.realize(s, Stage(g)); out(M.S, s, "realize %ld", g); }
+    void invalidate(int g) { s.invalidateAll(Stage(g)); out(M.S, s, "invalAll %ld", g); }
+    void askLazy() {          // composite / articulated inertias are only computed on request
+        M.S.matter.realizeCompositeBodyInertias(s); out(M.S, s, "mRealize cbi");
+        M.S.matter.realizeArticulatedBodyInertias(s); out(M.S, s, "mRealize abi");
+    }
+    void read() { const int g = (int)s.getSystemStage(); if (g >= 5) { askLazy(); (void)matterDigest(M.S, s, std::min(g, 8)); } }
+    // compare with a fresh State at the current stage; returns whether the last change of q / u was visible
+    bool finish(const std::string& order) {
+        const int g = std::min((int)s.getSystemStage(), 8);
+        askLazy();
+        const std::vector<double> a = matterDigest(M.S, s, g);
+        const State f = matterFresh(M, s.getQ(), s.getU(), s.getTime(), g);
+        const std::vector<double> b = matterDigest(M.S, f, g);
+        vh::P("sameBitsAsFreshState", "matter.history." + M.type + "." + order + ".bits_equal", bitsDiff(a, b), 0.0);
+        const State o = matterFresh(M, qPrev, uPrev, s.getTime(), g);
+        const bool visible = bitsDiff(matterDigest(M.S, o, g), b) > 0;
+        vh::D("matter_class=" + M.type + "." + order + (visible ? "" : ".NO_EFFECT"));
+        return visible;
+    }
+};
+
+const char* const MATTER_ORDERS[] = { "P_q_P", "P_q_P_V", "V_u_V", "V_q_V", "A_q_P_A", "P_q_A", "A_u_A", "random" };
+const int N_MATTER_ORDERS = 8;
+
+bool matterOrder(const MatterSys& M, vh::Rng& r, int order) {
+    MatterRun h(M, r);
+    switch (order) {
+    case 0: h.realize(5); h.changeQ(); h.realize(5); break;
+    case 1: h.realize(5); h.changeQ(); h.realize(5); h.realize(6); break;
+    case 2: h.realize(6); h.changeU(); h.realize(6); break;
+    case 3: h.realize(6); h.changeQ(); h.realize(6); break;
+    case 4: h.realize(8); h.changeQ(); h.realize(5); h.realize(8); break;
+    case 5: h.realize(5); h.changeQ(); h.realize(8); break;
+    case 6: h.realize(8); h.changeU(); h.realize(8); break;
+    default: {
+        const int nops = 5 + r.below(12);
+        for (int i = 0; i < nops; ++i) {
+            const int c = r.below(100);
+            if (c < 25) h.changeQ(); else if (c < 40) h.changeU(); else if (c < 75) h.realize(5 + r.below(4));
+            else if (c < 85) h.invalidate(3 + r.below(6)); else h.read();
+        }
+        if (r.coin()) h.changeQ(); else h.changeU();
+        if (r.coin()) h.realize(5 + r.below(2));
+        h.realize(5 + r.below(4));
+        break; }
+    }
+    return h.finish(MATTER_ORDERS[order]);
+}
+
+// every mobilizer type (forward and reversed) as the middle body of a 3-body chain, every order class
+void matterDirected(vh::Rng& r) {
+    int missing = 0;
+    for (int t = 0; t < M_NTYPES; ++t) for (int rev = 0; rev < 2; ++rev) {
+        MatterSys M; M.type = std::string(MTYPE_NAMES[t]) + (rev ? "_reversed" : "");
+        M.euler = r.coin();
+        MobilizedBody a = addMobilizer(M.S, r, M.S.matter.Ground(), r.below(M_NTYPES), r.coin());
+        MobilizedBody b = addMobilizer(M.S, r, a, t, rev != 0);
+        MobilizedBody c = addMobilizer(M.S, r, b, r.below(M_NTYPES), r.coin());
+        M.S.bodies = { a, b, c };
+        buildMatterForces(M.S, r);
+        M.S.sys.realizeTopology();
+        for (int o = 0; o < N_MATTER_ORDERS; ++o) if (!matterOrder(M, r, o) && o != 7) ++missing;
+    }
+    // floor: every (type, order) class must have been exercised with a change that is visible in the compared quantities
+    vh::P("everyMatterClassExercised", "matter.history.coverage_floor", missing, 0.0);
+}
+
+// random tree from the full palette, random history
+void matterRandomCase(vh::Rng& r) {
+    MatterSys M; M.type = "mixed"; M.euler = r.coin();
+    const int nb = 2 + r.below(3);
+    for (int i = 0; i < nb; ++i) {
+        MobilizedBody parent = (i == 0 || r.below(4) == 0) ? (MobilizedBody)M.S.matter.Ground() : M.S.bodies[r.below(i)];
+        M.S.bodies.push_back(addMobilizer(M.S, r, parent, r.below(M_NTYPES), r.coin()));
+    }
+    buildMatterForces(M.S, r);
+    M.S.sys.realizeTopology();
+    vh::D("subject=matter");
+    matterOrder(M, r, 7);
+}
+
 } // namespace
 
 int main(int argc, char** argv) {
@@ -726,7 +1019,8 @@ int main(int argc, char** argv) {
     try {
         caseF4(r);
         directedCases(r);
-        for (long i = 0; i < args.n; ++i) { if (i % 3 == 2) richCase(r); else randomCase(r); }
+        matterDirected(r);
+        for (long i = 0; i < args.n; ++i) { if (i % 3 == 2) richCase(r); else if (i % 6 == 1) matterRandomCase(r); else randomCase(r); }
     } catch (const std::exception& e) {
         std::fprintf(stderr, "C16 harness: exception %s\n", e.what());
         return 3;
